@@ -333,6 +333,28 @@ def run (kernel : String) (a : List String) : Option Out :=
   | "v2rmul", [p, k] => do let p ← parseV2 p; let k ← parseRat k; pure (.ok (v2l (v2rmul p k)))
   | "v3hashArg", [x] => do let v ← parseV3 x; let t := v3hashArg v; pure (.ok [t.1, t.2.1, t.2.2])
   | "v2hashArg", [x] => do let p ← parseV2 x; let t := v2hashArg p; pure (.ok [t.1, t.2])
+  | "v3cosBetween", [p, q] => do
+      let p ← parseV3 p; let q ← parseV3 q
+      match v3cosBetweenS sqrtA p q with | .ok c => pure (.ok [c]) | .error e => pure (.err e)
+  | "v2cosBetween", [p, q] => do
+      let p ← parseV2 p; let q ← parseV2 q
+      match v2cosBetweenS sqrtA p q with | .ok c => pure (.ok [c]) | .error e => pure (.err e)
+  | "v3rotate", [p, c, s] => do let p ← parseV3 p; let c ← parseRat c; let s ← parseRat s; pure (.ok (v3l (v3rotateS sqrtA p c s)))
+  | "v2rotate", [p, c, s] => do let p ← parseV2 p; let c ← parseRat c; let s ← parseRat s; pure (.ok (v2l (v2rotateS sqrtA p c s)))
+  | "v3rotateDeg", [p, c, s] => do let p ← parseV3 p; let c ← parseRat c; let s ← parseRat s; pure (.ok (v3l (v3rotateDegS sqrtA p c s)))
+  | "v2rotateDeg", [p, c, s] => do let p ← parseV2 p; let c ← parseRat c; let s ← parseRat s; pure (.ok (v2l (v2rotateDegS sqrtA p c s)))
+  | "perspective", [x] => do
+      match ← parseRats x with
+      | [l, r, t, b, n, f] => pure (exM (perspective l r t b n f))
+      | _ => none
+  | "perspectiveFov", [a, n, f, t] => do
+      let a ← parseRat a; let n ← parseRat n; let f ← parseRat f; let t ← parseRat t; pure (exM (perspectiveFov a n f t))
+  | "ocsPointsToWcs", [t, m, l] => do
+      let t ← parseBool t; let m ← parseM m; let l ← parseList parseV3 l; pure (.ok ((ocsPointsToWcs t m l).map v3l).flatten)
+  | "ocsPointsFromWcs", [t, m, l] => do
+      let t ← parseBool t; let m ← parseM m; let l ← parseList parseV3 l; pure (.ok ((ocsPointsFromWcs t m l).map v3l).flatten)
+  | "ucsToOcsAngleVec", [m, c, s] => do
+      let m ← parseM m; let c ← parseRat c; let s ← parseRat s; pure (exV3 (ucsToOcsAngleVecS sqrtA m c s))
   | "v3truediv", [p, k] => do let p ← parseV3 p; let k ← parseRat k; pure (exV3 (v3truediv p k))
   | "v3rmul", [p, k] => do let p ← parseV3 p; let k ← parseRat k; pure (.ok (v3l (v3rmul p k)))
   | "v3radd", [p, q] => do let p ← parseV3 p; let q ← parseV3 q; pure (.ok (v3l (v3radd p q)))
@@ -470,6 +492,10 @@ def mutate (s : M44) (kind arg : String) : Option M44 :=
                else ucsRotateLocalZS sqrtA s c sn
       match r with | .ok m => some m | .error _ => none
     | _ => none
+  else if kind = "ro" then   -- continue on the NEW object `rotate(axis, angle)` returns (origin must be kept)
+    match parseRats arg with
+    | some [ax, ay, az, c, sn] => (match ucsRotateS sqrtA s ⟨ax, ay, az⟩ c sn with | .ok m => some m | .error _ => none)
+    | _ => none
   else none)
 
 namespace Py
@@ -482,8 +508,14 @@ c11_kernels
 c11_mutate
 end Py
 
+-- rotate_deg is a translated kernel only for the Python twin (the Cython form multiplies by a C constant and calls rotate)
+namespace PyxStandIn
+def v3rotateDegS := VectorPyx.v3rotateS
+def v2rotateDegS := VectorPyx.v2rotateS
+end PyxStandIn
+
 namespace Pyx
-open VectorPyx Matrix44Pyx ConstructPyx
+open VectorPyx Matrix44Pyx ConstructPyx PyxStandIn
 open UcsPyx hiding ucsDirectionFromWcs
 namespace UcsK
 def ucsDirectionFromWcs := UcsPyx.ucsDirectionFromWcs
